@@ -21,7 +21,7 @@ inductive LoadExpr
   | object (ty : String) (factory : Bool) (src : BufSrc)
   | bytes (size : String)
   | aligned (sizedBy : Option String) (elem : String) (factory : Bool) (align : Nat) (padLast : Bool)
-  | fill (elem : String) (factory : Bool)
+  | fill (elem : String) (factory : Bool) (key : Option String)
   | counted (elem : String) (factory : Bool) (count : String) (key : Option String)
   deriving Repr, Inhabited
 
@@ -77,7 +77,8 @@ def LoadExpr.render : LoadExpr → String
     "ArrayHelpers.read_variable_size_elements(" ++
       (match sizedBy with | some sf => "buffer[:" ++ sf ++ "]" | none => "buffer") ++ ", " ++ factoryName elem factory ++ ", " ++
       toString align ++ ", skip_last_element_padding=" ++ pyBool (!padLast) ++ ")"
-  | .fill elem factory => "ArrayHelpers.read_array(buffer, " ++ factoryName elem factory ++ ")"
+  | .fill elem factory key => "ArrayHelpers.read_array(buffer, " ++ factoryName elem factory ++
+      (match key with | some k => ", " ++ sortAccessor k | none => "") ++ ")"
   | .counted elem factory count key =>
     "ArrayHelpers.read_array_count(buffer, " ++ factoryName elem factory ++ ", " ++ count ++
       (match key with | some k => ", " ++ sortAccessor k | none => "") ++ ")"
@@ -128,7 +129,7 @@ def loadAst (S : Schema) (f : Field) (src : BufSrc) : LoadExpr :=
     if align != 0 then
       .aligned (match mode with | .sized sf => some sf | _ => none) elem (isAbstractStruct S elem) align padLast
     else match mode with
-      | .fill => .fill elem (isAbstractStruct S elem)
+      | .fill => .fill elem (isAbstractStruct S elem) sortKey
       | .count cf | .sized cf => .counted elem (isAbstractStruct S elem) cf sortKey
 
 def advAst (f : Field) : AdvExpr :=
@@ -272,8 +273,13 @@ def LoadExpr.eval (S : Schema) (T : String → Bytes → Bytes) (r : Rec) (σ : 
       | none => .ok σ.buffer)
     let l ← decArrayAligned r elem align padLast (window.length + 1) window
     .ok (.arr l)
-  | .fill elem _ => do
+  | .fill elem _ key => do
     let l ← decArrayFill r elem (σ.buffer.length + 1) σ.buffer
+    -- with an accessor, `read_array` raises unless the keys of the elements read are strictly ascending
+    let sorted ← (match key with
+      | none => .ok true
+      | some k => do let keys ← l.mapM (sortKeyOf S T elem k); .ok (strictlyAscending keys))
+    if !sorted then .error .unsorted else
     .ok (.arr l)
   | .counted elem _ count key => do
     let n ← σ.getInt count
